@@ -46,7 +46,7 @@ class C15(Check):
         base = list(QUICK_CFGS) + ["avx2-17-O2", "avx2-14-O2+FASTOR_DONT_PERFORM_OP_MIN", "avx2-14-O2+FASTOR_KEEP_DP_FIXED"]
         if ctx.tier == "quick":
             return base
-        return ["%s-%s-O2" % (i, s) for i in ALL_ISAS for s in ("14", "17")] + base[4:]
+        return ["%s-14-O2" % i for i in ALL_ISAS] + ["avx2-17-O2", "avx512-17-O2"] + base[4:]
 
     def allow_compile_fail(self):
         return True
